@@ -49,8 +49,12 @@ JunkStd  == { <<FLAG>>, <<ESC>>, <<1>>, <<2>>, <<94>>,
 \* a start that never ends, flag fill
 CleanMax == { <<FLAG>> \o Wire(F1), <<FLAG>> \o Wire(G2), <<FLAG>> \o Wire(F2) }
 JunkMax  == { <<FLAG>>, <<FLAG>> \o Wire(G4), <<FLAG, 160, 12, 1, 3>>, <<1, 1, 1, 1, 1, 1, 1>>, <<ESC, FLAG>> }
-Clean == IF Lib = "max" THEN CleanMax ELSE CleanStd
-Junk  == IF Lib = "max" THEN JunkMax ELSE JunkStd
+\* "rs" library, for MaxLen scaled to 8 and up to 5 segments: the non-stuffing form of C16 only binds frames that start more than
+\* MaxLen + one frame length after the noise, so the clean suffix must be long compared with MaxLen (vacuous in "max" with 3 segments)
+CleanRs == { <<FLAG>> \o Wire(F1) }
+JunkRs  == { <<FLAG>> \o Wire(G2), <<FLAG, 160, 12, 1, 3>>, <<1, 1, 1, 1, 1, 1, 1>>, <<ESC, FLAG>> }
+Clean == IF Lib = "max" THEN CleanMax ELSE IF Lib = "rs" THEN CleanRs ELSE CleanStd
+Junk  == IF Lib = "max" THEN JunkMax ELSE IF Lib = "rs" THEN JunkRs ELSE JunkStd
 Segs == Clean \cup Junk
 FrameOf(sg) == IF sg = <<FLAG>> \o Wire(F1) THEN F1 ELSE IF sg = <<FLAG>> \o Wire(F2) THEN F2
                ELSE IF sg = <<FLAG>> \o Wire(F3) THEN F3 ELSE IF sg = <<FLAG>> \o Wire(G2) THEN G2 ELSE F4
@@ -110,17 +114,26 @@ CleanDelivered ==
 \* length after the junk; that is exercised by the scaled-MaxLen configuration.)
 LastJunk == LET J == {i \in 1..Len(segs) : segs[i] \in Junk} IN IF J = {} THEN 0 ELSE CHOOSE i \in J : \A j \in J : j <= i
 SegStart(i) == FoldLeft(LAMBDA a, j : a + Len(segs[j]), 0, [j \in 1..(i - 1) |-> j])   \* octets before segment i
-Resync ==
-   (phase = "read" /\ fedn = Len(wire)) =>
+ResyncReq ==
       LET noiseEnd == SegStart(LastJunk + 1)
-          req == SelectSeq([i \in 1..Len(segs) |-> i],
+      IN SelectSeq([i \in 1..Len(segs) |-> i],
                    LAMBDA i : /\ i > LastJunk
                               /\ IF Stuffing THEN i > LastJunk + 1
                                  ELSE ~Has(FrameOf(segs[i]), FLAG)
                                       /\ (SegStart(i) + 1) - noiseEnd > MaxLen + Len(FrameOf(segs[i])))
+Resync ==
+   (phase = "read" /\ fedn = Len(wire)) =>
+      LET req == ResyncReq
           v == SelectSeq(outs, LAMBDA f : f.valid)
       IN IsSubseq([j \in 1..Len(req) |-> FrameOf(segs[req[j]])], [j \in 1..Len(v) |-> v[j].octets])
 
 BufBounded == Retained(rd, buf) <= BufBound + lastChunk
+\* Witnesses (vacuity guards, harness/core.py Check.witnesses): written as invariants that TLC must find VIOLATED
+W_ValidOut == ~(\E i \in 1..Len(outs) : outs[i].valid)
+W_InvalidOut == ~(\E i \in 1..Len(outs) : ~outs[i].valid)
+W_TwoCleanDelivered == ~(phase = "read" /\ IsClean /\ (\A i \in 1..Len(segs) : CleanDomain(FrameOf(segs[i]))) /\ Cardinality(Completed) >= 2)
+W_ResyncBinds == ~(phase = "read" /\ fedn = Len(wire) /\ LastJunk > 0 /\ Len(ResyncReq) >= 1)
+W_CallEndsInsideFrame == ~(phase = "read" /\ 0 < fedn /\ fedn < Len(wire) /\ rd # R0 /\ Len(outs) > 0)
+W_RetainedNearMax == ~(Retained(rd, buf) >= MaxLen)
 NeverStuck == phase = "read" => (fedn = Len(wire) \/ ENABLED Read)
 =============================================================================
